@@ -8,7 +8,6 @@
 
 package bw6633
 
-
 //@ func G2Affine.IsInSubGroup
 //@ layer ring fp.Element
 //@ assumed the subgroup test is a pure predicate of the point (its exactness is number theory: not proved); membership implies being on the curve
